@@ -30,7 +30,7 @@ VARIABLES tcp,        \* TRUE: TcpServer / TcpClient connection; FALSE: raw Buff
           pshut,      \* 0 | 1 peer shut down its sending side | 2 peer closed | 3 peer aborted (reset)
           eof,        \* the object has seen read()==0 or a read error
           closeRep,   \* number of peer-close notifications
-          wfail,      \* a write failed because the peer is gone
+          wfail,      \* a write or read failed because the peer is gone (EPIPE / ECONNRESET): the connection was reset
           peof,       \* what ended the peer's reading: 0 nothing yet | 1 end-of-file | 2 an error (ECONNRESET)
           clean       \* the local side went away having read everything the peer wrote, and the peer wrote nothing since
 cvars == <<tcp, run, thr, sent, pend, written, pgot, pwrote, rtot, consumed, presented, incb, pshut, eof, closeRep, wfail, peof, clean>>
@@ -59,6 +59,11 @@ SendRet(ok) ==
           /\ written <= sent - pend
           /\ run = "Gone"                        \* a live stream accepts what it is given
   /\ UNCHANGED <<tcp, run, thr, written, pgot, pwrote, rtot, consumed, presented, incb, pshut, eof, closeRep, wfail, peof, clean>>
+
+(* The connection was reset: the peer aborted, or the object wrote into a connection the peer had already closed   *)
+(* (the peer's kernel answers with a reset and throws away what it had not transmitted yet).  Bytes the peer wrote *)
+(* may then never arrive - that is the kernel's doing, outside the statement.                                       *)
+Broken == pshut = 3 \/ wfail
 
 (* the object wrote to its descriptor: the bytes the kernel took must continue the stream exactly where the   *)
 (* previous write stopped, and must have been handed to send() before (in order, exactly once, nothing invented) *)
@@ -97,10 +102,11 @@ PeerShut(how) ==
 
 SysRead(ret, runs, again) ==
   /\ run # "None"
-  /\ IF ret > 0 THEN /\ runs = Run(rtot, ret) /\ rtot + ret <= pwrote /\ rtot' = rtot + ret /\ eof' = eof
-     ELSE IF ret = 0 THEN /\ pshut # 0 /\ (rtot = pwrote \/ pshut = 3) /\ eof' = TRUE /\ rtot' = rtot
+  /\ IF ret > 0 THEN /\ runs = Run(rtot, ret) /\ rtot + ret <= pwrote /\ rtot' = rtot + ret /\ eof' = eof /\ wfail' = wfail
+     ELSE IF ret = 0 THEN /\ pshut # 0 /\ (rtot = pwrote \/ Broken) /\ eof' = TRUE /\ rtot' = rtot /\ wfail' = wfail
      ELSE /\ (again \/ pshut >= 2) /\ eof' = (eof \/ ~again) /\ rtot' = rtot
-  /\ UNCHANGED <<tcp, run, thr, sent, pend, written, pgot, pwrote, consumed, presented, incb, pshut, closeRep, wfail, peof, clean>>
+          /\ wfail' = (wfail \/ ~again)          \* ECONNRESET: the connection was reset
+  /\ UNCHANGED <<tcp, run, thr, sent, pend, written, pgot, pwrote, consumed, presented, incb, pshut, closeRep, peof, clean>>
 
 (* the receive callback is shown exactly the read-but-unconsumed bytes: in order, nothing lost or duplicated, *)
 (* what an earlier callback left unconsumed comes again together with the later data; never after the close report *)
@@ -120,7 +126,7 @@ Delivered == rtot - consumed >= thr => presented = rtot
 CloseReport ==
   /\ run # "None" /\ incb = 0
   /\ closeRep = 0 /\ pshut # 0 /\ eof /\ Delivered
-  /\ (rtot = pwrote \/ pshut = 3)       \* an aborting peer may take unread bytes with it (kernel); what WAS read must have been delivered
+  /\ (rtot = pwrote \/ Broken)          \* a reset may take unread bytes with it (kernel); what WAS read must have been delivered
   /\ closeRep' = 1 /\ run' = (IF tcp THEN "Gone" ELSE run)
   /\ clean' = (IF tcp THEN rtot = pwrote ELSE clean)
   /\ UNCHANGED <<tcp, thr, sent, pend, written, pgot, pwrote, rtot, consumed, presented, incb, pshut, eof, wfail, peof>>
